@@ -16,7 +16,7 @@ for sid in ids:
     subprocess.run(f"git apply {os.path.join(d, 'patch.diff')}", shell=True, cwd="/repo", check=True)
     scratch = tempfile.mkdtemp(prefix="verif-seeded-")
     try:
-        for p in list(meta["checks"].keys()):
+        for p in [q for q in meta["checks"].keys() if "-" not in q]:
             env = dict(os.environ, VERIF_EVIDENCE_DIR=os.path.join(scratch, "evidence"), VERIF_REPLAY_DIR=os.path.join(scratch, "replays"), VERIF_STOP_ON_FIRST="1")
             t0 = time.time()
             r = subprocess.run(f"bin/simcheck {p} --tier quick", shell=True, cwd=VERIF, env=env, capture_output=True, text=True)
